@@ -97,6 +97,8 @@ def oracle(top, res, dist):
         return 'ctor-refuses'
     b = res['built']
     cls = 'ok'
+    for key, what in res.get('interference', []):
+        note_failure(key, top, f'{expr}: {what}', 'unchanged', 'changed')
     for k, o in enumerate(res['outs']):
         tags = set()
         try:
@@ -294,7 +296,8 @@ def main():
     ck = Check('C13')
     ck.rule = ('a case = one combinator expression tree built from FRESH real generator objects (constructor or infix + * ^ form) over '
                'spying leaves whose points are identifiable integers, run for 1..4 get_examples() calls with scripted randperm/randint '
-               'and a logged data-dependent filter predicate; bounded-exhaustive over all depth<=2 shapes (depth 3 in the thorough tier) '
+               'and a logged data-dependent filter predicate; afterwards consumers (BatchGenerator, SamplerGenerator) are put on top and every '
+               'predefined / static node and every object handed out earlier is checked for non-interference; bounded-exhaustive over all depth<=2 shapes (depth 3 in the thorough tier) '
                'with leaf sizes 1..8 and 1..3 dimensions, typed random trees up to depth 4 beyond; distinct = distinct (tree, calls, rng '
                'script); non-trivial = depth >= 2')
     ck.step_hygiene()
